@@ -346,7 +346,7 @@ def proof_step(pid, cfg, log):
     return res
 
 
-TV_STRUCTS = {'GoEntityPool': 'pool', 'GoLocks': 'lock', 'GoIntPool': 'intpool', 'GoBitSet': 'bitset', 'GoPaged': 'paged'}
+TV_STRUCTS = {'GoEntityPool': 'pool', 'GoLocks': 'lock', 'GoIntPool': 'intpool', 'GoBitSet': 'bitset', 'GoPaged': 'paged', 'GoResources': 'res'}
 
 
 def tv_structs(pid):
